@@ -72,6 +72,20 @@ func c15Spec(shape, lives string) kit.Spec {
 		c := reg(2, "D2")
 		c.Name = "k"
 		return kit.Spec{Regs: []kit.Reg{a, reg(1, "D1"), c}}
+	case "optional-deep":
+		// the optional dependency is registered and healthy itself; what fails is further down:
+		// a member of a group it consumes, a keyed service, or a dependency of those
+		a := reg(0, "D0", kit.Dep{T: "D1", Opt: true})
+		a.In = true
+		b := reg(1, "D1", kit.Dep{T: "D2", Group: "g"}, kit.Dep{T: "D4", Key: "k"})
+		b.In = true
+		g1 := reg(2, "D2")
+		g1.Group = "g"
+		g2 := reg(3, "D2", kit.Dep{T: "D3"})
+		g2.Group = "g"
+		k := reg(7, "D4", kit.Dep{T: "D3"}) // id 7: a singleton under the "mixed" pattern (a transient may not take a scoped service)
+		k.Name = "k"
+		return kit.Spec{Regs: []kit.Reg{a, b, g1, g2, reg(4, "D3"), k}}
 	case "iface":
 		// the dependency is declared as an interface type: a nil result is a nil interface
 		p := kit.Reg{ID: 1, Life: l(1), Err: true, Outs: []kit.Out{{T: "IA", Conc: "D1"}}, Deps: []kit.Dep{{T: "D2"}}}
@@ -599,12 +613,12 @@ func firstLineErr(e error) string {
 func init() {
 	mc.Register(&mc.Check{
 		Prop:        "C15",
-		Rule:        "fault sequences: 8 dependency shapes (chain, diamond, group consumer, In-struct with key/optional, optional-but-registered dependencies, two-output producer, interface-typed producer, result-object producer with an error return) x 5 lifetime patterns x every registration x invocation 1..3 x {returns error, returns nil, panics with string / error / struct / nil}; each execution: Build, scope, three attempts at the root service, a second scope, Close; oracle: no panic escapes, an error fault is reachable with errors.As (same pointer), a panic fault is a ConstructorPanicError carrying the value, retries without a pending fault succeed, lifetime / wiring / disposal oracles hold (nothing half-built is cached, nothing successfully built is rebuilt or leaked). API inputs: ~1,000 calls of every exported entry point with nil / typed-nil / zero / unregistered / mismatched / invalid arguments must not panic; Must* helpers panic iff the plain call errs. Error classes: 30 routes through Build / resolution / registration / module wrappers must be recognisable with errors.Is/As. distinct = canonical observation strings.",
+		Rule:        "fault sequences: 9 dependency shapes (chain, diamond, group consumer, In-struct with key/optional, optional-but-registered dependencies, an optional-but-registered dependency whose own group members / keyed dependencies / their dependencies fail, two-output producer, interface-typed producer, result-object producer with an error return) x 5 lifetime patterns x every registration x invocation 1..3 x {returns error, returns nil, panics with string / error / struct / nil}; each execution: Build, scope, three attempts at the root service, a second scope, Close; oracle: no panic escapes, an error fault is reachable with errors.As (same pointer), a panic fault is a ConstructorPanicError carrying the value, retries without a pending fault succeed, lifetime / wiring / disposal oracles hold (nothing half-built is cached, nothing successfully built is rebuilt or leaked). API inputs: ~1,000 calls of every exported entry point with nil / typed-nil / zero / unregistered / mismatched / invalid arguments must not panic; Must* helpers panic iff the plain call errs. Error classes: 30 routes through Build / resolution / registration / module wrappers must be recognisable with errors.Is/As. distinct = canonical observation strings.",
 		Assume:      []string{"keys are hashable (the property's precondition)", "a constructor returning a typed nil pointer is accepted as an instance: only 'no panic, consistent retry' is demanded there"},
 		MinOutcomes: 10,
 		Jobs: func(tier string) []mc.Job {
 			jobs := []mc.Job{{Name: "c15-inputs", Weight: 5, Run: c15Inputs}, {Name: "c15-classes", Run: c15Classes}}
-			for _, sh := range []string{"chain", "diamond", "group", "instruct", "optional", "multi", "iface", "resobj-err"} {
+			for _, sh := range []string{"chain", "diamond", "group", "instruct", "optional", "optional-deep", "multi", "iface", "resobj-err"} {
 				sh := sh
 				jobs = append(jobs, mc.Job{Name: "c15-faults/" + sh, Weight: 3, Run: func(r *mc.Report) { c15Faults(r, sh) }})
 			}
